@@ -38,6 +38,7 @@ import (
 	"github.com/gontainer/gontainer/internal/pkg/output"
 	"github.com/gontainer/gontainer/internal/pkg/resolver"
 	syn "github.com/gontainer/gontainer/internal/pkg/syntax"
+	tpl "github.com/gontainer/gontainer/internal/pkg/template"
 	"github.com/gontainer/gontainer/internal/pkg/token"
 	"gopkg.in/yaml.v3"
 )
@@ -56,6 +57,8 @@ func main() {
 		runCases(os.Args[2])
 	case "quote":
 		quoteLines()
+	case "format":
+		formatLines()
 	case "fuzz":
 		fuzz(os.Args[2], os.Args[3], os.Args[4])
 	default:
@@ -768,6 +771,32 @@ func minInt(a, b int) int {
 		return a
 	}
 	return b
+}
+
+// ---------------------------------------------------------------------------------------------- format
+
+// formatLines: JSON strings on stdin (one per line) -> the repo's real CodeFormatter (go/format + goimports) -> JSON {"out":..}|{"err":..}
+func formatLines() {
+	sc := bufio.NewScanner(os.Stdin)
+	sc.Buffer(make([]byte, 1<<20), 1<<28)
+	w := bufio.NewWriter(os.Stdout)
+	defer w.Flush()
+	enc := json.NewEncoder(w)
+	enc.SetEscapeHTML(false)
+	f := tpl.NewCodeFormatter()
+	for sc.Scan() {
+		var s string
+		if err := json.Unmarshal(sc.Bytes(), &s); err != nil {
+			_ = enc.Encode(map[string]any{"err": "harness: " + err.Error()})
+			continue
+		}
+		o, err := f.Format(s)
+		if err != nil {
+			_ = enc.Encode(map[string]any{"err": err.Error()})
+		} else {
+			_ = enc.Encode(map[string]any{"out": o})
+		}
+	}
 }
 
 // ---------------------------------------------------------------------------------------------- quote
